@@ -3,8 +3,8 @@
 // Mutex, RWMutex and Once are owned by the run's Scheduler: Lock does not
 // acquire anything, it parks the calling goroutine on a (bubble) channel and
 // registers a Waiter; the simulation driver grants exactly one enabled waiter
-// per scheduling step.  Cond, WaitGroup, Locker, Map and Pool are the real
-// ones (real Cond.Wait / WaitGroup.Wait are durably blocking inside a
+// per scheduling step.  WaitGroup, Locker, Map and Pool are the real ones, Cond
+// wraps the real one (real Cond.Wait / WaitGroup.Wait are durably blocking inside a
 // testing/synctest bubble, and Cond.Wait re-acquires through L.Lock(), i.e.
 // through the scheduler).
 //
@@ -20,15 +20,35 @@ import (
 )
 
 type (
-	Cond      = sync.Cond
 	WaitGroup = sync.WaitGroup
 	Locker    = sync.Locker
 	Map       = sync.Map
 	Pool      = sync.Pool
 )
 
+// Cond is sync.Cond with one more scheduling point: Wait parks the caller (still holding L) before it enters the
+// real Wait, so that whatever does not need L - a wake-up sent without the lock - can be scheduled between the
+// caller's test of its condition and its registration as a waiter. With a correct protocol (condition changed and
+// signalled under L) nothing can run in that window.
+type Cond struct {
+	L Locker
+	c *sync.Cond
+}
+
 //go:norace
-func NewCond(l Locker) *Cond { return sync.NewCond(l) }
+func NewCond(l Locker) *Cond { return &Cond{L: l, c: sync.NewCond(l)} }
+
+//go:norace
+func (c *Cond) Wait() {
+	Yield()
+	c.c.Wait()
+}
+
+//go:norace
+func (c *Cond) Signal() { c.c.Signal() }
+
+//go:norace
+func (c *Cond) Broadcast() { c.c.Broadcast() }
 
 // gmu guards the state of every simulated lock and of the scheduler. It is a
 // real mutex, held only for a few instructions and never while blocking.
